@@ -193,6 +193,15 @@ func mayWriteKeys(prog *ssa.Program, fn *ssa.Function) map[string]hkey {
 			// foreign function with body: assumed not to write module memory (listed as assumption)
 			return
 		}
+		if globalSpecs != nil && f.Pkg != nil {
+			if sp := globalSpecs.funcs[f.Pkg.Pkg.Path()+"::"+funcDisplay(f)]; sp != nil && sp.Assumed {
+				// assumed contract: exactly the heaps of its modifies clause (plus allocation, which callers account for)
+				for _, k := range staticModKeys(prog, f, sp) {
+					res[k.id()] = k
+				}
+				return
+			}
+		}
 		for _, b := range f.Blocks {
 			for _, in := range b.Instrs {
 				for _, k := range directWrites(in) {
@@ -312,7 +321,7 @@ func localDerived(v ssa.Value, seen map[ssa.Value]bool) bool {
 	}
 	seen[v] = true
 	switch v := v.(type) {
-	case *ssa.Alloc, *ssa.MakeSlice:
+	case *ssa.Alloc, *ssa.MakeSlice, *ssa.MakeMap:
 		return true
 	case *ssa.Slice:
 		return localDerived(v.X, seen)
@@ -492,4 +501,252 @@ func mapReadsOnParams(prog *ssa.Program, fn *ssa.Function, mt types.Type) bool {
 	}
 	visit(fn)
 	return ok
+}
+
+var globalSpecs *SpecDB
+
+// staticModKeys: the heaps named by a contract's modifies clause, from static types only.
+func staticModKeys(prog *ssa.Program, fn *ssa.Function, sp *FuncSpec) []hkey {
+	var out []hkey
+	var typeOf func(n *Node) types.Type
+	typeOf = func(n *Node) types.Type {
+		switch n.Kind {
+		case "ident":
+			for _, p := range fn.Params {
+				if p.Name() == n.Name {
+					return p.Type()
+				}
+			}
+		case "field":
+			bt := typeOf(n.Args[0])
+			if bt == nil {
+				return nil
+			}
+			if pt, ok := bt.Underlying().(*types.Pointer); ok {
+				bt = pt.Elem()
+			}
+			if st, ok := isStruct(bt); ok {
+				for i := 0; i < st.NumFields(); i++ {
+					if st.Field(i).Name() == n.Name {
+						return st.Field(i).Type()
+					}
+				}
+			}
+		case "index":
+			bt := typeOf(n.Args[0])
+			if bt == nil {
+				return nil
+			}
+			switch t := bt.Underlying().(type) {
+			case *types.Map:
+				return t.Elem()
+			case *types.Slice:
+				return t.Elem()
+			}
+		}
+		return nil
+	}
+	for _, cl := range sp.Modifies {
+		for _, n := range cl.Mods {
+			switch n.Kind {
+			case "star":
+				t := typeOf(n.Args[0])
+				if t == nil {
+					return []hkey{{kind: '*'}}
+				}
+				switch u := t.Underlying().(type) {
+				case *types.Map:
+					out = append(out, hkey{kind: 'M', t: u})
+				case *types.Slice:
+					out = append(out, hkey{kind: 'A', t: u.Elem()})
+				}
+			case "field":
+				bt := typeOf(n.Args[0])
+				if bt == nil {
+					return []hkey{{kind: '*'}}
+				}
+				if pt, ok := bt.Underlying().(*types.Pointer); ok {
+					bt = pt.Elem()
+				}
+				if st, ok := isStruct(bt); ok {
+					for i := 0; i < st.NumFields(); i++ {
+						if st.Field(i).Name() == n.Name {
+							out = append(out, hkey{kind: 'F', t: bt, field: i})
+						}
+					}
+				}
+			case "ident":
+				if n.Name != "nothing" {
+					return []hkey{{kind: '*'}}
+				}
+			default:
+				return []hkey{{kind: '*'}}
+			}
+		}
+	}
+	return out
+}
+
+// ---------------------------------------------------------------------------
+// writes to objects that may exist before the write's function (or loop iteration) started
+
+var mayWriteOldCache = map[*ssa.Function]map[string]hkey{}
+
+// directWritesOld: like directWrites, but ignoring initialisation of fresh objects and stores whose
+// target is memory allocated by the same function (inLoop restricts "same function" to allocations
+// made inside the given blocks, for loop bodies).
+func directWritesOld(in ssa.Instruction, inBlocks map[*ssa.BasicBlock]bool) []hkey {
+	fresh := func(v ssa.Value) bool {
+		return allocatedWithin(v, inBlocks, map[ssa.Value]bool{})
+	}
+	switch in := in.(type) {
+	case *ssa.Alloc, *ssa.MakeMap, *ssa.MakeSlice:
+		return nil
+	case *ssa.Store:
+		if fresh(in.Addr) {
+			return nil
+		}
+	case *ssa.MapUpdate:
+		if fresh(in.Map) {
+			return nil
+		}
+	case *ssa.Call:
+		if bi, ok := in.Call.Value.(*ssa.Builtin); ok {
+			switch bi.Name() {
+			case "append", "copy", "delete":
+				if fresh(in.Call.Args[0]) {
+					return nil
+				}
+			}
+		}
+	}
+	return directWrites(in)
+}
+
+func mayWriteOldKeys(prog *ssa.Program, fn *ssa.Function) map[string]hkey {
+	if r, ok := mayWriteOldCache[fn]; ok {
+		return r
+	}
+	visited := map[*ssa.Function]bool{}
+	res := map[string]hkey{}
+	var visit func(f *ssa.Function)
+	visit = func(f *ssa.Function) {
+		if visited[f] {
+			return
+		}
+		visited[f] = true
+		if ks, ok := externWrites[f.String()]; ok {
+			for _, k := range ks(f) {
+				res[k.id()] = k
+			}
+			return
+		}
+		if f.Blocks == nil || (!inModule(f) && f.Synthetic == "") {
+			return
+		}
+		if globalSpecs != nil && f.Pkg != nil {
+			if sp := globalSpecs.funcs[f.Pkg.Pkg.Path()+"::"+funcDisplay(f)]; sp != nil && sp.Assumed {
+				for _, k := range staticModKeys(prog, f, sp) {
+					res[k.id()] = k
+				}
+				return
+			}
+		}
+		for _, b := range f.Blocks {
+			for _, in := range b.Instrs {
+				for _, k := range directWritesOld(in, nil) {
+					res[k.id()] = k
+				}
+				var cc *ssa.CallCommon
+				switch in := in.(type) {
+				case *ssa.Call:
+					cc = &in.Call
+				case *ssa.Defer:
+					cc = &in.Call
+				case *ssa.MakeClosure:
+					visit(in.Fn.(*ssa.Function))
+				}
+				if cc != nil {
+					cs, dyn := calleesOf(prog, cc)
+					if dyn {
+						res["*"] = hkey{kind: '*'}
+					}
+					for _, c := range cs {
+						visit(c)
+					}
+				}
+			}
+		}
+	}
+	visit(fn)
+	mayWriteOldCache[fn] = res
+	return res
+}
+
+// instrWritesOld: heap names an instruction of a loop body may write on objects that existed before the loop.
+func (e *Enc) instrWritesOld(in ssa.Instruction, f *Frame, body map[*ssa.BasicBlock]bool) []string {
+	keys := map[string]hkey{}
+	for _, k := range directWritesOld(in, body) {
+		keys[k.id()] = k
+	}
+	var cc *ssa.CallCommon
+	switch in := in.(type) {
+	case *ssa.Call:
+		cc = &in.Call
+	case *ssa.Defer:
+		cc = &in.Call
+	}
+	if cc != nil {
+		cs, dyn := calleesOf(e.prog, cc)
+		if dyn {
+			if v, ok := f.vals[cc.Value]; ok && v.Fn != nil {
+				cs = append(cs, v.Fn)
+			} else {
+				keys["*"] = hkey{kind: '*'}
+			}
+		}
+		for _, c := range cs {
+			for id, k := range mayWriteOldKeys(e.prog, c) {
+				keys[id] = k
+			}
+		}
+	}
+	return e.keyNames(keys)
+}
+
+// allocatedWithin: every allocation the value may stem from is performed by the same function and,
+// when blocks is non-nil, inside those blocks.
+func allocatedWithin(v ssa.Value, blocks map[*ssa.BasicBlock]bool, seen map[ssa.Value]bool) bool {
+	if seen[v] {
+		return true
+	}
+	seen[v] = true
+	switch x := v.(type) {
+	case *ssa.Alloc:
+		return blocks == nil || blocks[x.Block()]
+	case *ssa.MakeSlice:
+		return blocks == nil || blocks[x.Block()]
+	case *ssa.MakeMap:
+		return blocks == nil || blocks[x.Block()]
+	case *ssa.Slice:
+		return allocatedWithin(x.X, blocks, seen)
+	case *ssa.IndexAddr:
+		return allocatedWithin(x.X, blocks, seen)
+	case *ssa.FieldAddr:
+		return allocatedWithin(x.X, blocks, seen)
+	case *ssa.Phi:
+		for _, e := range x.Edges {
+			if !allocatedWithin(e, blocks, seen) {
+				return false
+			}
+		}
+		return true
+	case *ssa.Const:
+		return x.Value == nil
+	case *ssa.Call:
+		if bi, ok := x.Call.Value.(*ssa.Builtin); ok && bi.Name() == "append" {
+			return allocatedWithin(x.Call.Args[0], blocks, seen)
+		}
+	}
+	return false
 }
